@@ -34,7 +34,7 @@ CLAIM = {
             "walk: WalkDir rooted at the path argument, only non-restricting walk options, every iterator stage up to the reading loop "
             "accounted for, `not a directory and extension == mapping` implies the entry reaches read_file_into (truth table over "
             "is_dir / extension / opaque atoms, iterator chain or for loop, helper predicates inlined), no directory is read, a "
-            "filter_entry predicate holds for all directories and mapping files, the writer sets the extension unconditionally.",
+            "filter_entry predicate holds for all directories and mapping files, the writer sets the extension unconditionally. Also: (R12.1 written-unconditionally) no row of the class writer stands behind a successful early exit (`if <test of the content> { return Ok(()) }`, continue, break), rows under a condition other than `if let Some(..) = <field>` are reported; (R12.2 nesting:every-node-written) the tree walk calls the class writer for every node it takes from the queue, unconditionally; (R12.2) a sort must be executed whenever the loop it feeds is (`len() > 1` apart); (R12.3 comment-join:stored) every COMMENT row the helper accepts is stored, whatever its text; the comment line separator may be an argument of the helper (evaluated per call site).",
     "note": "Not decided: round-trip equality of contents, target names that do not follow the nesting, file-system effects. Known "
             "findings: inner-class prefix stripped for a class written at the top of a file (outer class absent); two classes with the "
             "same file name overwrite each other; tab/VT/FF/CR inside a comment become a blank. Trusted: rustc HIR/typeck/const-eval, "
@@ -240,6 +240,8 @@ def writer_row(q, cx, row, sep, spec):
                 d["owner"] = U.role_str(r[0]) if r else "?"
             else:
                 d["problems"].append("row under a condition that is not `if let Some(..) = <field>`")
+        elif c[0] == "after-exit":
+            pass            # reported per row by R12.1 (written-unconditionally)
         else:
             d["problems"].append("row in unsupported context %s" % c[0])
     tag = None
@@ -377,6 +379,7 @@ def comment_helper(q, cx, fn, call, callee):
             if loc and pids and loc[0] == pids[0]:
                 ch = callee.trace(n["r"])
                 out["first"] = ch
+                out.setdefault("store_nodes", []).append(n)
                 # assignment only when the javadoc is still None
                 out["first_when_none"] = U.option_conditions(callee.root, n, pids[0]) == {"none"}
         if n.get("k") == "mcall" and n["name"] in ("push", "push_str"):
@@ -386,9 +389,16 @@ def comment_helper(q, cx, fn, call, callee):
             if not (under_some and on_payload):
                 out["problems"].append("push outside `if let Some(javadoc) = javadoc` or not on javadoc.0")
             if n["name"] == "push":
-                out["push_char"] = (out["push_char"] or []) + [H.const_value(n["args"][0])]
+                v = H.const_value(n["args"][0])
+                if v is None:
+                    # the separator handed in by the caller (`insert_comment(&mut x.javadoc, line, '\n')`): the constant of this call site
+                    ch = callee.trace(n["args"][0])
+                    if ch.root[0] in ("lit", "const") and not ch.hops:
+                        v = ch.root[-1]
+                out["push_char"] = (out["push_char"] or []) + [v]
             else:
                 out["push_str"] = (out["push_str"] or []) + [callee.trace(n["args"][0])]
+                out.setdefault("store_nodes", []).append(n)
     return out
 
 
@@ -416,6 +426,18 @@ def r12_1(q, R, cx, spec):
     want = {"CLASS": tags["class"], "FIELD": tags["field"], "METHOD": tags["method"], "PARAMETER": tags["parameter"], "COMMENT": tags["comment"]}
     for cn, v in sorted(want.items()):
         R.inst("R12.1", "tag-const:%s" % cn, consts.get(cn) == v, sp=(q.consts.get(EF + cn) or {}).get("sp"), expect=v, got=consts.get(cn))
+    # ---- every row is written for every entry: no successful early exit (`if <content test> { return Ok(()) }`, continue, break)
+    #      ahead of a write! (seed C12-10: a class without target name and members writes no CLASS row, its inner classes follow the
+    #      previous top-level class in the text and are re-attached there by the reader)
+    seen_exits = set()
+    for key, wr in cx.wrows.items():        # in emission order
+        ex = U.exits_before(wr["row"], seen_exits)
+        R.inst("R12.1", "written-unconditionally:%s" % key, not ex, sp=(wr["loops"][-1][0].get("sp") if wr["loops"] else cx.wc["sp"]),
+               expect="the row is written for every entry of its map (CLASS: for every class handed to the class writer; COMMENT rows: for "
+                      "every Some(comment)): no `return Ok(..)`/continue/break before it",
+               got=ex or "no early exit before the row",
+               detail="the reader attaches every row to the nearest row one level up; a row that is skipped for some content is lost, and "
+                      "the rows of its sub-section are attached to another entry")
     # ---- rows
     for key in sorted(spec["rows"]):
         srow = spec["rows"][key]
@@ -568,7 +590,7 @@ def r12_2(q, R, cx, spec):
                 continue
             ikey = "loop:%s" % ("%s.%s" % o["map"] if o["map"] else "unknown-map")
             R.inst("R12.2", ikey, o["sorted"] is not None, sp=node.get("sp"), expect="<collected>.sort*(..) before the loop",
-                   got=("sorted by " + H.render(o["sorted"])[:80]) if o["sorted"] else "no sort",
+                   got=("sorted by " + H.render(o["sorted"])[:80]) if o["sorted"] else (o.get("sort_problem") or "no sort"),
                    detail="IndexMap iteration order is insertion order; it must not reach the output")
             if o["sorted"] is not None:
                 U.sort_key_total(q, R, "R12.2", cx, fn, o, ikey.replace("loop:", "sortkey:"))
@@ -673,6 +695,22 @@ def r12_2(q, R, cx, spec):
             same = c0.sig()[:-1] == c1.sig()[:-1] and c0.hops[-1:] == [("f", "Node", "src")] and c1.hops[-1:] == [("f", "Node", "class")]
             ok_d = ok_d and same
         R.inst("R12.2", "nesting:depth+1", ok_d, sp=wt["sp"], expect="write_class(parent.src, parent.class, w, depth); children pushed with depth + 1", got=got)
+        # every node taken from the queue is written: the class writer is called unconditionally in the loop (no content test around
+        # the call, no continue/break/return Ok before it) - the writer side of "exactly one CLASS row per placed class" (seed C12-10)
+        if len(wcalls) == 1:
+            from rules import c03 as C3
+            lp = next((a for a in fn.parents(wcalls[0]) if a.get("k") in ("loop", "for")), None)
+            qloc = None
+            if lp is not None:
+                pops = [n for n in H.walk(lp) if n.get("k") == "mcall" and n["name"] in ("pop_front", "pop_back", "pop") and H.local_of(n["recv"])]
+                qloc = H.local_of(pops[0]["recv"])[0] if len(pops) == 1 else None
+            bad = C3.conditional_store(fn, wcalls, qloc, stop=lp) if lp is not None else [("the class writer is not called in the loop over the queue", wt["sp"])]
+            R.inst("R12.2", "nesting:every-node-written", not bad, sp=(bad[0][1] if bad else wt["sp"]),
+                   expect="write_class(..)? for every node popped from the queue, before its children are pushed: no condition on the "
+                          "content of the class, no continue/break/return Ok before the call",
+                   got=[b[0].replace("stored", "written").replace("the store", "the call of the class writer") for b in bad] or "written in every iteration",
+                   detail="a class that is skipped while its inner classes are still written one level deeper leaves their rows under the "
+                          "preceding class of the text")
         inits = [n for n in H.walk(fn.root) if n.get("k") == "tuple" and len(n["es"]) == 2 and H.const_value(n["es"][1]) == 0
                  and H.local_of(n["es"][0]) and H.local_of(n["es"][0])[0] == H.param_ids(wt)[0]]
         R.inst("R12.2", "nesting:root-depth-0", len(inits) == 1, sp=wt["sp"], expect="queue starts with (node, 0)")
@@ -931,9 +969,20 @@ def r12_3(q, R, cx, spec):
                got=first.show() if first else None)
         R.inst("R12.3", "comment-join:first-line", bool(c.get("first_when_none")), sp=ic["sp"], expect="*javadoc = Some(..) only when there is no comment yet")
         ps = c["push_str"] or []
-        ok_next = c["push_char"] == [nl] and len(ps) == 1 and first is not None and ps[0].sig() == first.sig()[:-1] and not c["problems"]
+        # (the separator may be an argument of the helper: it is evaluated per call site, every COMMENT row must pass the same one)
+        ok_next = all(r["comment"]["push_char"] == [nl] for r in anyc) and len(ps) == 1 and first is not None and ps[0].sig() == first.sig()[:-1] and not c["problems"]
         R.inst("R12.3", "comment-join:next-lines", ok_next, sp=ic["sp"], expect="javadoc.0.push(%r); javadoc.0.push_str(&<the same joined text>)" % nl,
-               got={"push": c["push_char"], "push_str": [x.show() for x in ps], "problems": c["problems"]})
+               got={"push": sorted(set(repr(r["comment"]["push_char"]) for r in anyc)), "push_str": [x.show() for x in ps], "problems": c["problems"]})
+        # every accepted COMMENT row is stored: nothing but the test of the javadoc slot (and error exits) stands before the
+        # assignment / push_str (the Tiny v2 counterpart is R03.6 comment-stored, seed C03-11)
+        if c.get("store_nodes"):
+            from rules import c03 as C3
+            bad = C3.conditional_store(c["callee"], c["store_nodes"], H.param_ids(ic)[0])
+            R.inst("R12.3", "comment-join:stored", not bad, sp=(bad[0][1] if bad else ic["sp"]),
+                   expect="every COMMENT row the helper accepts is stored (first line: assignment, further lines: push_str), whatever its text",
+                   got=[b[0] for b in bad] or "stored on every successful path",
+                   detail="the writer emits one COMMENT row per line of the text, also for an empty line; a row that is accepted without being "
+                          "stored changes the comment on write -> read")
         # order: push(sep) before push_str
         seq = [n["name"] for n in H.walk(ic["body"]) if n.get("k") == "mcall" and n["name"] in ("push", "push_str")]
         R.inst("R12.3", "comment-join:order", seq == ["push", "push_str"], sp=ic["sp"], expect=["push", "push_str"], got=seq)
@@ -1047,7 +1096,17 @@ def r12_4(q, R, cx, spec):
             rc = fn.trace(e["recv"])
             return rc.sig() == loop_map.sig() and rc.root == loop_map.root and parent_like(e["args"][0])
         parent_bind, has_parent, in_set = None, False, False
+        # `match e { Some(p) if g => .. }` establishes the same as `if let Some(p) = e { if g { .. } }`
+        conds_n = []
         for kind, cn, pol in conds:
+            if kind == "arm":
+                arm = cn["arms"][pol]
+                conds_n.append(("iflet", {"k": "letexpr", "pat": arm["pat"], "init": cn["scrut"], "sp": arm.get("sp")}, True))
+                if "guard" in arm:
+                    conds_n.append(("if", arm["guard"], True))
+            else:
+                conds_n.append((kind, cn, pol))
+        for kind, cn, pol in conds_n:
             if kind == "iflet" and pol is True:
                 c = fn.trace(cn["init"])
                 names = [h[1] for h in c.hops if h[0] == "call"]
